@@ -82,8 +82,14 @@ def add_disk_features(rng, files: Dict[str, Any]) -> Dict[str, Any]:
         files["source/dir.txt/inner.txt"] = "Inner\n=====\n"
         tags.append("directory-named-like-a-page")
     if rng.random() < 0.15:
-        files["source/includes/steps-broken.yaml"] = rng.choice(["title: x\n  bad: [\n", "- 1\n- 2\n", "", "ref: a\n---\nref: a\n...\n", b"\xff\xfe"])
+        files["source/includes/" + rng.choice(["steps-broken.yaml", "extracts-broken.yaml"])] = rng.choice([
+            "title: x\n  bad: [\n", "- 1\n- 2\n", "", "ref: a\n---\nref: a\n...\n", b"\xff\xfe",
+            "ref: a\ncontent: 2001-13-45\n", "ref: a\ncontent: !!int abc\n", "ref: a\ncontent: 2001-12-14\n", "ref: a\ncontent: !!binary no!!\n",
+            "ref: a\ncontent: !!set {a, b}\n", "title: .inf\nref: .nan\nstepnum: 1e400\ncontent: x\n", "ref: &a [*a]\n", "? [a]\n: b\n"])
         tags.append("broken-yaml")
+    if rng.random() < 0.1 and isinstance(files.get("snooty.toml"), str) and files["snooty.toml"].startswith('name = "verif"'):
+        files["snooty.toml"] = files["snooty.toml"].replace('name = "verif"', rng.choice(['name = "two\\nlines"', 'name = ""', 'name = " "', 'name = "a/b"']), 1)
+        tags.append("odd-project-name")
     return {"tags": tags}
 
 
